@@ -145,6 +145,7 @@ pub enum BadGlyphKind {
     PathConversion(PathConversionError),
     Anchor(BadAnchor),
     BadDeltas(DeltaError),
+    ComponentCycle,
     FrontendSpecific(String),
 }
 
@@ -286,6 +287,9 @@ impl std::fmt::Display for BadGlyphKind {
             BadGlyphKind::NoAxisPosition(axis) => write!(f, "no position on '{axis}' axis"),
             BadGlyphKind::Anchor(e) => write!(f, "bad anchor: '{e}'"),
             BadGlyphKind::BadDeltas(e) => write!(f, "delta error: '{e}'"),
+            BadGlyphKind::ComponentCycle => {
+                f.write_str("is a component of itself, directly or indirectly")
+            }
             BadGlyphKind::FrontendSpecific(e) => write!(f, "{}", e),
         }
     }
